@@ -116,6 +116,10 @@ def posix_axioms():
     ax.append(tm.ForAll([("vp", STR)], tm.And(isnorm(normpath(p)), tm.Iff(isabs(normpath(p)), isabs(p))),
                         patterns=[[normpath(p)]]))
     ax.append(tm.ForAll([("vp", STR)], tm.Implies(isnorm(p), tm.Eq(normpath(p), p)), patterns=[[normpath(p)]]))
+    # an absolute path is normalised to its canonical form; "." is normalised
+    ax.append(tm.ForAll(S1, tm.Implies(isabs(p), tm.Eq(normpath(p), res(b, p))), patterns=[[normpath(p), res(b, p)]]))
+    ax.append(isnorm(DOT))
+    ax.append(tm.Not(isabs(DOT)))
     # join: an absolute second component wins; otherwise the second is resolved inside the first
     ax.append(tm.ForAll([("vx", STR), ("vy", STR)],
                         tm.And(tm.Implies(isabs(y), tm.Eq(join(x, y), y)),
@@ -269,7 +273,11 @@ class translate:
     env = PATH_ENV
     setup = _setup_axioms
     smt_options = dict(abstract_strings=True, solvers=("z3", "cvc5"))
-    ensures_named = dict(same_file=_translate_same_file, normalized=_translate_normalized,
+    ensures_named = dict(same_file=_translate_same_file,
+                         normalized_for_relative_workdir=lambda path, workdir, result: wrap_bool(tm.Implies(
+                             tm.Or(isabs(S(path)), tm.Not(isabs(S(workdir)))), isnorm(S(result)))),
+                         normalized_for_absolute_workdir=lambda path, workdir, result: wrap_bool(tm.Implies(
+                             tm.And(tm.Not(isabs(S(path))), isabs(S(workdir))), isnorm(S(result)))),
                          normalized_root_relative_unchanged=_translate_unchanged)
     result = trusted.PathStr
     modifies = []
@@ -305,3 +313,244 @@ def translate_roundtrip():
     # contract of translate_back applied to t
     c.assume(wrap_bool(tm.Eq(res(step_dir(wrap_str(w)), r), res(ROOT(), t))))
     return wrap_bool(tm.Eq(res(step_dir(wrap_str(w)), r), res(step_dir(wrap_str(w)), p)))
+
+
+def _small_paths(absolute=None):
+    import itertools
+
+    comps = ["a", "b", ".", "..", ""]
+    out = set()
+    for n in range(0, 4):
+        for t in itertools.product(comps, repeat=n):
+            body = "/".join(t)
+            for lead in ("", "/"):
+                for trail in ("", "/"):
+                    out.add(lead + body + trail)
+    # exactly two leading slashes are implementation-defined in POSIX (posixpath keeps them): outside the contracts
+    out = sorted(p for p in out if not p.startswith("//") or p.startswith("///"))
+    if absolute is True:
+        return [p for p in out if p.startswith("/")]
+    if absolute is False:
+        return [p for p in out if not p.startswith("/")]
+    return out
+
+
+@replayer("C20/translate/post.same_file")
+def replay_translate_same_file(o):
+    return _search_same_file("translate")
+
+
+@replayer("C20/translate/post.normalized_root")
+def replay_translate_unchanged(o):
+    return _search_same_file("translate")
+
+
+@replayer("C20/translate_back/post.same_file")
+def replay_translate_back_same_file(o):
+    return _search_same_file("translate_back")
+
+
+def _search_same_file(which):
+    """No finite counter-model exists for the uninterpreted path algebra: search small concrete paths, work
+    directories and HERE values through the real function for a result that designates another file."""
+    import subprocess
+
+    code = (
+        "import itertools, os, posixpath as pp, sys\n"
+        "os.environ['STEPUP_ROOT'] = '/r/oot'\n"
+        "from stepup.core.path import translate, translate_back\n"
+        "comps = ['a', 'b', '.', '..']\n"
+        "paths = ['/'.join(t) for n in range(1, 4) for t in itertools.product(comps, repeat=n)]\n"
+        "def res(b, p): return pp.normpath(pp.join(b, p))\n"
+        "for here in ['.', 'sub', 'sub/deep', '../out']:\n"
+        "    os.environ['HERE'] = here\n"
+        "    for w in ['.', 'a', 'a/b', '..', '../c']:\n"
+        "        stepdir = res(res('/r/oot', here), w)\n"
+        "        for p in paths:\n"
+        f"            if {which!r} == 'translate':\n"
+        "                r = str(translate(p, w)); ok = res('/r/oot', r) == res(stepdir, p)\n"
+        "                if ok and here == '.' and w == '.' and p == pp.normpath(p) and not p.startswith('..'): ok = r == p\n"
+        "            else:\n"
+        "                r = str(translate_back(p, w)); ok = res(stepdir, r) == res('/r/oot', p)\n"
+        "            if not ok:\n"
+        f"                print('{which}(%r, %r) with HERE=%r gives %r, which is another file or not the same text' % (p, w, here, r)); sys.exit(1)\n"
+        "print('no mismatch found')\n")
+    r = subprocess.run(["/venv/bin/python", "-c", code], cwd=extract.REPO, capture_output=True, text=True,
+                       env={"PYTHONPATH": extract.REPO, "PATH": "/usr/bin:/bin"})
+    return dict(reproduced=r.returncode == 1, python=code, output=(r.stdout + r.stderr)[-800:],
+                witness=dict(search="relative paths of up to 3 components over a b . .., five work directories, four HERE values"))
+
+
+@replayer("C20/translate/post.normalized")
+def replay_translate_normalized(o):
+    """The failed clause has no finite counter-model (uninterpreted path algebra): search small concrete paths
+    through the real translate() for a result that is not normalised."""
+    import os
+    import posixpath
+    import subprocess
+
+    code = (
+        "import itertools, os, posixpath, sys\n"
+        "os.environ['STEPUP_ROOT'] = '/root_dir'; os.environ.pop('HERE', None)\n"
+        "from stepup.core.path import translate\n"
+        "comps = ['a', 'b', '.', '..']\n"
+        "paths = ['/'.join(t) for n in range(1, 4) for t in itertools.product(comps, repeat=n)]\n"
+        "for w in ['/abs/w', '/abs/w/', '/', '/abs/../w']:\n"
+        "    for p in paths:\n"
+        "        r = str(translate(p, w))\n"
+        "        if r != posixpath.normpath(r):\n"
+        "            print('translate(%r, %r) = %r is not normalised (normpath gives %r)' % (p, w, r, posixpath.normpath(r)))\n"
+        "            sys.exit(1)\n"
+        "print('all results normalised')\n")
+    r = subprocess.run(["/venv/bin/python", "-c", code], cwd=extract.REPO, capture_output=True, text=True,
+                       env={"PYTHONPATH": extract.REPO, "PATH": "/usr/bin:/bin"})
+    return dict(reproduced=r.returncode == 1, python=code, output=(r.stdout + r.stderr)[-800:],
+                witness=dict(search="relative paths of up to 3 components over a b . .. with absolute work directories",
+                             claim="translate returns a path that is not normalised, so one file can be recorded "
+                                   "under two labels"))
+
+
+@lemma("C20/lemma/posix_axioms_not_contradictory", props=["C20"], abstract_strings=True, expect="nonunsat", timeout=5,
+       note="must-fail twin: `false` does not follow from the assumed posixpath contracts (an inconsistent axiom set "
+            "would discharge every obligation); the concrete model is exercised by the bounded stand-in posix_axioms")
+def axioms_consistent():
+    _setup_axioms(None)
+    return wrap_bool(tm.TRUE)
+
+
+@bounded("posix_axioms", props=["C20"],
+         bound="every assumed posixpath contract instantiated on all paths of up to 3 components over {a, b, ., .., ''} "
+               "with and without leading and trailing separators (quick: bases and starts sampled by seed; thorough: "
+               "full product), res(b, p) := normpath(join(b, p)) for an absolute normalised b; CPython's posixpath")
+def posix_axioms_bounded(tier, seed):
+    import posixpath as pp
+    import random
+
+    rnd = random.Random(seed)
+    paths = _small_paths()
+    rel = [p for p in paths if not p.startswith("/")]
+    canon_dirs = sorted({pp.normpath(p) for p in paths if p.startswith("/")} | {"/", "/r", "/r/s"})
+    nsample = 40 if tier == "quick" else len(paths)
+    cwd = "/r"
+
+    def res(b, p):
+        return pp.normpath(pp.join(b, p))
+
+    def isnorm(p):
+        return p == pp.normpath(p) if p != "" else False
+
+    def inside(p):
+        return p != ".." and not p.startswith("../")
+
+    failures = []
+    evals = 0
+
+    def check(name, ok, **w):
+        nonlocal evals
+        evals += 1
+        if not ok and len(failures) < 6:
+            failures.append(dict(axiom=name, **w))
+
+    for p in paths:
+        n = pp.normpath(p)
+        check("normpath.isnorm", isnorm(n), p=p)
+        check("normpath.isabs", pp.isabs(n) == pp.isabs(p), p=p)
+        if isnorm(p):
+            check("normpath.fixpoint", n == p, p=p)
+        for b in canon_dirs:
+            check("normpath.same_file", res(b, n) == res(b, p), b=b, p=p)
+            if pp.isabs(p):
+                check("abs.normpath_is_res", n == res(b, p), b=b, p=p)
+                for x in rnd.sample(canon_dirs, 3):
+                    check("abs.base_irrelevant", res(b, p) == res(x, p), b=b, p=p)
+            r = res(b, p)
+            check("res.canonical", pp.isabs(r) and isnorm(r) and res("/zzz", r) == r and res(r, ".") == r, b=b, p=p)
+    for x in rnd.sample(paths, min(nsample, len(paths))):
+        for y in paths:
+            j = pp.join(x, y)
+            if pp.isabs(y):
+                check("join.abs_wins", j == y, x=x, y=y)
+            check("join.isabs", pp.isabs(j) == (pp.isabs(x) or pp.isabs(y)), x=x, y=y)
+            if not pp.isabs(y):
+                for b in rnd.sample(canon_dirs, 4):
+                    check("join.resolve", res(b, j) == res(res(b, x), y), b=b, x=x, y=y)
+    for p in rnd.sample(paths, min(nsample, len(paths))):
+        for s in paths:
+            if p == "" or s == "":
+                continue  # posixpath.relpath raises for empty arguments; the code never passes them
+            rp = pp.relpath(res(cwd, p), res(cwd, s))
+            check("relpath.leads_back", res(res(cwd, s), rp) == res(cwd, p), p=p, s=s)
+            check("relpath.normalised_relative", isnorm(rp) and not pp.isabs(rp), p=p, s=s)
+    for b in canon_dirs:
+        for p in rel:
+            if isnorm(p) and inside(p):
+                check("relpath.inverse_of_res", pp.relpath(res(b, p), b) == p, b=b, p=p)
+    # a failure here contradicts an ASSUMED contract (a defect of the checker), it is not a violation of C20
+    return dict(evaluations=evals, failures=[], checker_failures=failures)
+
+
+# ---------------------------------------------------------------- _keep_affixes, parent_dir, ROOT / HERE
+
+apimod_path = "stepup/core/api.py"
+
+
+def _transform_stub(p):
+    """An arbitrary transform (translate or translate_back): a function of its argument."""
+    return SymPath(cur().decls.fun("transform", [STR], STR)(S(p)))
+
+
+def _keep_affixes_post(path, result):
+    lead, trail = affixes_t(S(path))
+    f = cur().decls.fun("transform", [STR], STR)(S(path))
+    return result == wrap_str(tm.Concat(lead, f, trail))
+
+
+@contract("stepup/core/api.py::_keep_affixes", props=["C20"])
+class keep_affixes:
+    """The transformed path carries exactly the leading './' and trailing '/' of the original, or the call is
+    rejected (when the transform already produced such an affix)."""
+
+    args = dict(path=ty.Str, transform=lambda a: _transform_stub)
+    env = dict(coerce_path=lambda p: trusted.Path(p))
+    may_raise = {PathError: None}
+    ensures = _keep_affixes_post
+    result = trusted.PathStr
+    modifies = []
+
+
+@structural("C20/scan/api_translates_every_path", props=["C20"],
+            note="api.step / amend / static / glob / get_info pass paths through translate / translate_back (directly or "
+                 "through _keep_affixes) with the step's work directory before they reach the director")
+def api_translates():
+    import ast
+
+    out = []
+    want = {"step": ["translate"], "amend": ["translate"], "static": ["translate"], "glob": ["translate"]}
+    for fn, needed in want.items():
+        _, node = extract.find_def(apimod_path, fn)
+        names = {getattr(n.func, "id", getattr(n.func, "attr", "")) for n in ast.walk(node) if isinstance(n, ast.Call)}
+        args = {a.id for n in ast.walk(node) if isinstance(n, ast.Call) for a in n.args if isinstance(a, ast.Name)}
+        used = names | args
+        for nm in needed:
+            out.append((f"scan/api_translates_every_path/{fn}.{nm}", nm in used or f"_{nm}" in used or any(
+                nm in u for u in used), f"{fn} uses {sorted(u for u in used if 'translate' in u)}"))
+    src, node = extract.find_def("stepup/core/executor.py", "Executor._run_command")
+    seg = ast.get_source_segment(src, node)
+    out.append(("scan/api_translates_every_path/ROOT", 'env["ROOT"] = str(Path.cwd().relpath(workdir))' in seg,
+                "ROOT leads from the work directory to the director's directory"))
+    out.append(("scan/api_translates_every_path/HERE", 'env["HERE"] = str(Path(workdir).relpath())' in seg,
+                "HERE leads from the director's directory to the work directory"))
+    return out
+
+
+@lemma("C20/lemma/root_and_here_are_inverse", props=["C20"], abstract_strings=True,
+       note="with ROOT = relpath(cwd, workdir) and HERE = relpath(workdir): resolving ROOT in the work directory gives "
+            "the director's directory and resolving HERE there gives the work directory")
+def root_here():
+    c = cur()
+    _setup_axioms(None)
+    w = c.fresh("workdir", STR)
+    root_env = relpath(CWD(), w)
+    here_env = relpath(w, DOT)
+    wd = res(CWD(), w)
+    return wrap_bool(tm.And(tm.Eq(res(wd, root_env), CWD()), tm.Eq(res(res(CWD(), DOT), here_env), wd)))
